@@ -11,11 +11,13 @@
    | `differ <k> <model statement> ||| <real statement>` first statement that differs (`-` = missing)
    | `kernel <wire>`                                     (no real kernel given) the model's kernel
    | `refuse <why>` | `unmodelled <why>`
-  followed, for `same` / `differ` / `kernel`, by TAB `#check yes|no` (the model kernel passes `checkKernel`).
+  followed, for `same` / `differ` / `kernel`, by TAB `#check yes|no` (the model kernel passes `checkKernel`)
+  TAB `#fragment yes|no <reasons>` (the graph is inside the fragment of `loopygen_sound_partial`).
 -/
 import PtModel.Sexp
 import PtModel.HandleKernel
 import PtModel.LoopyGen
+import PtModel.LoopyGenSem
 namespace Pt
 open LG
 
@@ -64,7 +66,11 @@ def handleLoopyGen : List Sx → Option String
     | .refuse w => some ("refuse " ++ w)
     | .unmodelled w => some ("unmodelled " ++ w)
     | .ok k =>
-      let chk := "\t#check " ++ (if checkKernel k then "yes" else "no")
+      -- is the graph inside the fragment the soundness theorems cover (`PtProofs.C01GenChecks`)?
+      let frag :=
+        if LG.fragmentCheck g.toArray && os.all (fun o => decide (o.2 < g.length)) then "yes"
+        else "no " ++ ",".intercalate (LG.outsideFragment g.toArray)
+      let chk := "\t#check " ++ (if checkKernel k then "yes" else "no") ++ "\t#fragment " ++ frag
       match real with
       | .atom "#none" => some ("kernel " ++ (Sx.list (k.map KStmt.toSx)).toStr ++ chk)
       | r => do
